@@ -126,6 +126,20 @@ def gen_container(world, draw, profile):
         contents.append([si, q.text])
         if fL > 0:
             room -= float(q.value) / sub.factor(fam) * fL / cfg.vol_mult
+    if profile.get('ctor_faults') and draw(st.integers(0, 5)) == 0:
+        fault = draw(st.sampled_from(['over', 'neg', 'badcap', 'near']))
+        if fault == 'badcap':
+            cap = draw(st.sampled_from(['0 mL', '-5 mL', '0.0 L', '-1e-3 uL']))
+        elif fault == 'neg' and contents:
+            si, q = contents[-1]
+            contents[-1] = [si, '-' + q]
+        elif fault in ('over', 'near') and cap is not None and not math.isinf(room):
+            si = draw(st.integers(0, len(world.subs) - 1))
+            sub = world.subs[si]
+            if sub.factor('L') > 0:
+                f = draw(st.floats(1.05, 3.0)) if fault == 'over' else draw(st.floats(0.9, 1.1))
+                x = max(room, 1e-3) * cfg.vol_mult * f
+                contents.append([si, render_q(x, 'L', draw(st.sampled_from(PREFIX_POOL)), 0, 6).text])
     op = {'op': 'container', 'name': name, 'cap': cap, 'contents': contents if (contents or draw(st.booleans())) else None}
     return op
 
@@ -406,8 +420,11 @@ def gen_fill_to(world, draw, profile):
     if tgt is None:
         return None
     ref, cfg = world.ref, world.cfg
-    solvent = draw(st.sampled_from(liquid_indices(world))) if draw(st.integers(0, 5)) else \
-        draw(st.integers(0, len(world.subs) - 1))
+    non_enzymes = [i for i, s_ in enumerate(world.subs) if not s_.enzyme]
+    solvent = draw(st.sampled_from(liquid_indices(world))) if (draw(st.integers(0, 5)) or not profile.get(
+        'enzyme_fill_solvent')) else draw(st.integers(0, len(world.subs) - 1))
+    if not draw(st.integers(0, 7)):
+        solvent = draw(st.sampled_from(non_enzymes))
     fam = draw(st.sampled_from(['L', 'L', 'g', 'mol', 'U'] if profile.get('fill_U') else ['L', 'L', 'g', 'mol']))
     wv = well_views(world, tgt)[0]
     cur = [ref.size(world.base(v), fam) for _, v in wv]
@@ -451,3 +468,145 @@ def gen_slice(world, draw, profile):
     if sel['t'] == 'plate':
         sel = {'t': 'all'}
     return {'op': 'slice', 'plate': pi, 'sel': sel}
+
+
+# ------------------------------------------------------------------------------------------------ solutions
+
+NUM_FAMS = {'solid': ['mol', 'g', 'L'], 'liquid': ['mol', 'g', 'L'], 'enzyme': ['U', 'g']}
+
+
+def gen_create_solution(world, draw, profile):
+    """Mostly feasible by construction: sketch a mixture, read off its stated values."""
+    ref, cfg = world.ref, world.cfg
+    liquids = liquid_indices(world)
+    n = draw(st.sampled_from([1, 1, 1, 2, 3]))
+    cand = [i for i in range(len(world.subs))]
+    solutes = draw(st.lists(st.sampled_from(cand), min_size=n, max_size=n, unique=True))
+    solv_cands = [i for i in liquids if i not in solutes]
+    if not solv_cands:
+        return None
+    use_container = False
+    solvent = {'s': draw(st.sampled_from(solv_cands))}
+    if profile.get('solvent_containers', True) and draw(st.integers(0, 3)) == 0:
+        # a container holding at least one liquid and none of the solutes
+        ok = []
+        for i in world.indices('c'):
+            v = world.pool[i].view
+            names = {nm for nm, a in v['contents'] if a > 0}
+            if names and not (names & {world.subs[s].name for s in solutes}) and \
+                    any(world.ref.subs[nm].kind == 'liquid' for nm in names) and v['vol'] > 100:
+                ok.append(i)
+        if ok:
+            solvent = {'c': draw(st.sampled_from(ok))}
+            use_container = True
+    # sketch: total volume and solute shares
+    if use_container:
+        sv = world.pool[solvent['c']].view
+        vtot = sv['vol'] * cfg.vol_mult * draw(st.floats(0.05, 0.6))        # litres
+        sbase = world.base(sv)
+        stot = ref.size(sbase, 'L')
+        mix = {nm: a / stot * vtot for nm, a in sbase.items()}            # solvent part (scaled later)
+    else:
+        vtot = 10 ** draw(st.floats(-4, -1.3))                              # 0.1 mL .. 50 mL
+        ssub = world.subs[solvent['s']]
+        mix = {ssub.name: vtot / ssub.factor('L')}
+    for si in solutes:
+        sub = world.subs[si]
+        share = draw(st.floats(0.002, 0.15))
+        if sub.factor('L') > 0:
+            amt = share * vtot / sub.factor('L')
+            if sub.enzyme:
+                amt = min(amt, 3.0)
+        else:
+            amt = share * vtot * 1000 / sub.factor('g') if sub.factor('g') else share
+        mix[sub.name] = amt
+    which = draw(st.sampled_from(['ct', 'cq', 'qt'] if n == 1 else ['ct', 'qt']))
+    kw = {}
+    if 'c' in which:
+        cs = []
+        for si in solutes:
+            sub = world.subs[si]
+            num = draw(st.sampled_from(NUM_FAMS[sub.kind]))
+            den = draw(st.sampled_from(['L', 'L', 'g', 'mol']))
+            x = ref.conc(mix, sub.name, num, den)
+            c = draw(basic.conc_spelling(x, num, den, cfg.wv))
+            cs.append(c.text)
+        kw['concentration'] = cs[0] if (n == 1 and draw(st.booleans())) else cs
+    if 'q' in which:
+        qs = []
+        for si in solutes:
+            sub = world.subs[si]
+            fam = draw(st.sampled_from(NUM_FAMS[sub.kind]))
+            x = mix[sub.name] * sub.factor(fam)
+            qs.append(render_q(x, fam, draw(st.sampled_from(PREFIX_POOL)), draw(st.integers(0, 2)), 6).text)
+        kw['quantity'] = qs[0] if (n == 1 and draw(st.booleans())) else qs
+    if 't' in which:
+        fam = draw(st.sampled_from(['L', 'L', 'g', 'mol']))
+        x = ref.size(mix, fam)
+        kw['total_quantity'] = render_q(x, fam, draw(st.sampled_from(PREFIX_POOL)), draw(st.integers(0, 2)), 6).text
+    return {'op': 'create_solution', 'solutes': solutes, 'single': n == 1 and draw(st.booleans()),
+            'solvent': solvent, 'kw': kw, 'name': world.fresh_name('sol') if draw(st.booleans()) else None}
+
+
+def _solution_containers(world, need_liquid=True):
+    """pool indices of containers with a non-enzyme solute and at least two substances"""
+    out = []
+    for i in world.indices('c'):
+        v = world.pool[i].view
+        pos = [nm for nm, a in v['contents'] if a > 0]
+        if len(pos) >= 2 and any(world.ref.subs[nm].kind != 'enzyme' for nm in pos):
+            out.append(i)
+    return out
+
+
+def gen_dilute(world, draw, profile):
+    ref, cfg = world.ref, world.cfg
+    cands = _solution_containers(world)
+    if not cands:
+        return None
+    ci = draw(st.sampled_from(cands))
+    v = world.pool[ci].view
+    base = world.base(v)
+    non_enz = [nm for nm, a in v['contents'] if a > 0 and ref.subs[nm].kind != 'enzyme']
+    solute = draw(st.sampled_from(sorted(non_enz)))
+    liquids = [i for i in liquid_indices(world) if world.subs[i].name != solute]
+    if not liquids:
+        return None
+    present_l = [i for i in liquids if base.get(world.subs[i].name, 0) > 0]
+    solvent = draw(st.sampled_from(present_l if (present_l and draw(st.integers(0, 3))) else liquids))
+    num = draw(st.sampled_from(['mol', 'mol', 'g', 'L']))
+    den = draw(st.sampled_from(['L', 'L', 'g', 'mol']))
+    cur = ref.conc(base, solute, num, den)
+    mode = draw(st.sampled_from(profile.get('dilute_modes', ['lower'] * 6 + ['higher', 'equal'])))
+    f = draw(st.floats(0.05, 0.95)) if mode == 'lower' else draw(st.floats(1.05, 1.5)) if mode == 'higher' else 1.0
+    c = draw(basic.conc_spelling(cur * f, num, den, cfg.wv))
+    return {'op': 'dilute', 'obj': ci, 'solute': world.by_name[solute], 'conc': c.text, 'solvent': solvent,
+            'name': world.fresh_name('dil') if draw(st.integers(0, 2)) == 0 else None}
+
+
+def gen_create_solution_from(world, draw, profile):
+    ref, cfg = world.ref, world.cfg
+    cands = _solution_containers(world)
+    if not cands:
+        return None
+    ci = draw(st.sampled_from(cands))
+    v = world.pool[ci].view
+    base = world.base(v)
+    non_enz = [nm for nm, a in v['contents'] if a > 0 and ref.subs[nm].kind != 'enzyme']
+    solute = draw(st.sampled_from(sorted(non_enz)))
+    liquids = [i for i in liquid_indices(world) if world.subs[i].name != solute]
+    if not liquids:
+        return None
+    solvent = {'s': draw(st.sampled_from(liquids))}
+    num = draw(st.sampled_from(['mol', 'mol', 'g', 'L']))
+    den = draw(st.sampled_from(['L', 'L', 'g', 'mol']))
+    cur = ref.conc(base, solute, num, den)
+    f = draw(st.floats(0.05, 0.95)) if draw(st.integers(0, 7)) else draw(st.floats(1.05, 1.5))
+    c = draw(basic.conc_spelling(cur * f, num, den, cfg.wv))
+    fam = draw(st.sampled_from(['L', 'L', 'g', 'mol']))
+    # the stock supplies a fraction f of the solute: quantity up to size/f... keep below what the stock can give
+    supply = ref.size(base, fam) / max(f, 1e-9)
+    frac = draw(st.floats(0.02, 0.9)) if draw(st.integers(0, 7)) else draw(st.floats(1.05, 1.5))
+    q = render_q(supply * frac * min(f, 1.0), fam, draw(st.sampled_from(PREFIX_POOL)), draw(st.integers(0, 2)), 6)
+    return {'op': 'create_solution_from', 'src': ci, 'solute': world.by_name[solute], 'conc': c.text,
+            'solvent': solvent, 'q': q.text, 'name': world.fresh_name('dfrom') if draw(st.booleans()) else None}
